@@ -13,7 +13,7 @@ FUNCTIONS = ["wannierberri.run_grid.process (parallel branch: ray.wait loop, rem
              "wannierberri.run_grid.run with parallel=True (ray.put / ray.remote / refinement loop)", "KpointBZ.set_result/get_result_factor"]
 BOUNDS = dict(quick=dict(remotes="n = 2..4 K-points per process() call", nstep_print="1 (get_ray_cpus_count=1) and 2", completion="symbolic completion times T_i and ray.wait instants tau_j: "
                          "every completion order and every interleaving with the wait calls", timeouts="none, or the first wait call times out with fewer refs",
-                         run="2x1x1 grid with one refinement iteration in parallel mode"),
+                         run="2x1x1 grid with one refinement iteration (adpt_mesh (2,1,1)) in parallel mode"),
               thorough=dict(remotes="n = 2..5", nstep_print="1, 2, 3", completion="as quick", timeouts="as quick", run="2x2x1 grid, 1 refinement"))
 EXPLANATION = ("process() runs with a stand-in ray module whose wait() implements ray's documented contract over symbolic completion times: it returns the first num_returns "
                "ready refs in the order of the input list (fewer only on timeout); readiness is the fork T_i <= tau_j. Per-K results are symbolic atoms. z3 decides on every "
@@ -160,7 +160,7 @@ def case_serial(rec, n):
     rec.explore(body, [])
 
 
-def case_run_parallel(rec, NKdiv, niter):
+def case_run_parallel(rec, NKdiv, niter, adpt_mesh=(2, 1, 1)):
     """whole run() in parallel mode with refinement == the same run() in serial mode"""
     D.setup_symbolic()
     reg = D.Registry(1)
@@ -233,12 +233,12 @@ def case_run_parallel(rec, NKdiv, niter):
                 m = s.model()
                 fl = lambda x: float(m.eval(x, model_completion=True).as_fraction())
                 sched = [dict(T=[fl(t) for t in r.T], tau=[fl(z3.Real(f"{r.tau_prefix}{j}")) for j in range(r.calls)]) for r in rays if getattr(r, "sealed", False)]
-            return dict(test="run", NKdiv=NKdiv, niter=niter, values=D.registry_values(env, reg), schedule=sched)
+            return dict(test="run", NKdiv=NKdiv, niter=niter, adpt_mesh=adpt_mesh, values=D.registry_values(env, reg), schedule=sched)
         rec.witness = witness
         with D.TmpDir() as tmp:
-            ser = D.do_run(sysobj, D.make_calc(reg), NKdiv, niter, tmp, parallel=False, use_irred_kpt=False, symmetrize=False)
+            ser = D.do_run(sysobj, D.make_calc(reg), NKdiv, niter, tmp, parallel=False, use_irred_kpt=False, symmetrize=False, adpt_mesh=adpt_mesh)
         with D.TmpDir() as tmp:
-            par = D.do_run(sysobj, D.make_calc(reg), NKdiv, niter, tmp, parallel=True, use_irred_kpt=False, symmetrize=False)
+            par = D.do_run(sysobj, D.make_calc(reg), NKdiv, niter, tmp, parallel=True, use_irred_kpt=False, symmetrize=False, adpt_mesh=adpt_mesh)
         rec.eq("run(parallel=True) == run(parallel=False)", par.results['c'].data[0], ser.results['c'].data[0], key="run(): parallel result differs from the serial result")
     rec.explore(body, ass, maxpaths=50000)
 
@@ -357,9 +357,9 @@ def replay(rec):
         RG.get_ray_cpus_count = lambda: 1
         RG.check_ray_initialized = lambda: True
         with D.TmpDir() as tmp:
-            ser = D.do_run(sysobj, D.make_concrete_calc(reg), tuple(w["NKdiv"]), w["niter"], tmp, parallel=False, use_irred_kpt=False, symmetrize=False)
+            ser = D.do_run(sysobj, D.make_concrete_calc(reg), tuple(w["NKdiv"]), w["niter"], tmp, parallel=False, use_irred_kpt=False, symmetrize=False, adpt_mesh=tuple(w["adpt_mesh"]))
         with D.TmpDir() as tmp:
-            par = D.do_run(sysobj, D.make_concrete_calc(reg), tuple(w["NKdiv"]), w["niter"], tmp, parallel=True, use_irred_kpt=False, symmetrize=False)
+            par = D.do_run(sysobj, D.make_concrete_calc(reg), tuple(w["NKdiv"]), w["niter"], tmp, parallel=True, use_irred_kpt=False, symmetrize=False, adpt_mesh=tuple(w["adpt_mesh"]))
         a, b = float(par.results['c'].data[0]), float(ser.results['c'].data[0])
         return bool(abs(a - b) > 1e-9 * max(1, abs(b))), f"parallel {a} serial {b} schedule {sched}"
     raise ValueError(w["test"])
